@@ -773,6 +773,17 @@ class Exec:
             if m.kind[s] in ('sched', 'pure') and m.members[s] and \
                     all(m.forever[j] for j in m.members[s]):
                 return
+        # half of the forever jobs that nobody requires really never end: a
+        # lost wake-up elsewhere then shows as a hang, not as an exception
+        import zlib
+        for s in tree:
+            if m.kind[s] not in ('sched', 'pure'):
+                continue
+            for j in m.members[s]:
+                if m.kind[j] == 'job' and m.forever[j] and not any(
+                        j in m.req[k] for k in m.members[s]) and zlib.crc32(
+                            ("%d/%s" % (self.case['salt'], j)).encode()) % 2:
+                    self.objs[j].spec['outcome'] = 'never_fut'
         self.stats['runs_of_built_graph'] = \
             self.stats.get('runs_of_built_graph', 0) + 1
         obj = self.objs[sched]
